@@ -19,27 +19,34 @@ Open Scope Z_scope.
    targetChunkCount: DownsampleRaw terminates, reading the counter aggregate of its
    chunks with ApplyCounterResetsSeriesIterator terminates, and every value read is the
    raw counter adjusted for all counter resets up to the last raw sample at or before
-   the emitted timestamp — whether the resets fall inside a chunk or between chunks. *)
+   the emitted timestamp — whether the resets fall inside a chunk or between chunks;
+   emitted timestamps are strictly increasing and the last value read is the total
+   adjusted counter of the series (the raw counter's whole increase is preserved). *)
 Theorem C37_level1 : forall res num_chunks data,
   valid_counter res data ->
   exists l1 emitted,
     level1 res num_chunks data = Some l1 /\ read_counter l1 = Some emitted /\
-    Forall (fun s => snd s = adj_at (keep_nonnan data) (fst s)) emitted.
-Proof. exact level1_exact. Qed.
+    Forall (fun s => snd s = adj_at (keep_nonnan data) (fst s)) emitted /\
+    StronglySorted Z.lt (map fst emitted) /\
+    (keep_nonnan data = [] -> emitted = []) /\
+    (keep_nonnan data <> [] ->
+       emitted <> [] /\ snd (last emitted (0, 0)) = adj (map snd (keep_nonnan data))).
+Proof. exact level1_full. Qed.
 Print Assumptions C37_level1.
 
-(* The same through the boolean clause [values_ok] of the predicate that the check
-   evaluates on the implementation's own read-out (pred_ok additionally checks strictly
-   increasing timestamps, that the last value is the total adjusted counter, the
-   second level (1h) and Next/Seek programs: those clauses are tied by execution only —
-   this is the "partial" in the property's level). *)
-Theorem C37_level1_values_partial : forall res1 res2 num_chunks data,
+(* The same through the level-1 clause [level_ok] of the boolean predicate that the check
+   evaluates on the implementation's own read-out: values = adjusted counter, timestamps
+   strictly increasing, last value = total adjusted counter (the whole increase is
+   preserved).  pred_ok additionally applies level_ok to the SECOND level (1h) and checks
+   Next/Seek programs: those two clauses are tied by execution only — this is the
+   "partial" in the property's level. *)
+Theorem C37_level1_pred_partial : forall res1 res2 num_chunks data,
   valid_input res1 res2 data = true ->
   exists l1 emitted,
     level1 res1 num_chunks data = Some l1 /\ read_counter l1 = Some emitted /\
-    values_ok (keep_nonnan data) emitted = true.
-Proof. exact level1_values. Qed.
-Print Assumptions C37_level1_values_partial.
+    level_ok (keep_nonnan data) emitted = true.
+Proof. exact level1_pred. Qed.
+Print Assumptions C37_level1_pred_partial.
 
 (* The iterator on ANY sequence of counter chunks of the documented format (first raw
    value, non-decreasing per-window values at strictly increasing timestamps, last
